@@ -330,7 +330,7 @@ def _has_native(cspuz, constraints):
     return any(walk(c) for c in constraints)
 
 
-def _call_graph(cspuz, fn, flag, solver=None):
+def _call_graph(cspuz, fn, flag, solver=None, variant=0):
     from cspuz import graph as G
 
     s = solver if solver is not None else cspuz.Solver()
@@ -343,7 +343,9 @@ def _call_graph(cspuz, fn, flag, solver=None):
     elif fn == "avc_acyclic":
         G.active_vertices_connected(s, s.bool_array(4), graph=g, acyclic=True, **kw)
     elif fn == "division_connected":
-        G.division_connected(s, s.int_array(4, 0, 1), 2, graph=g)
+        # the documented argument type is Sequence[IntExprLike] | IntArray1D: array, list and tuple in turn
+        d = s.int_array(4, 0, 1)
+        G.division_connected(s, d if variant % 3 == 0 else list(d) if variant % 3 == 1 else tuple(d), 2, graph=g)
     elif fn == "single_cycle":
         G.active_edges_single_cycle(s, s.bool_array(4), g, **kw)
     elif fn == "single_path":
@@ -684,7 +686,7 @@ def _do_graph(res, cspuz, n_op, op, cfg):
     if reuse is not None:
         res.hit("graph:same_solver_as_previous_call")
     try:
-        s = _call_graph(cspuz, fn, flag, reuse)
+        s = _call_graph(cspuz, fn, flag, reuse, variant=n_op)
         _LAST_SOLVER["s"] = s
         _LAST_SOLVER["cspuz"] = cspuz
     except RuntimeError as e:
